@@ -8,7 +8,17 @@ import os
 import sys
 
 rows = collections.OrderedDict()
-for fn in sys.argv[1:]:
+own_now = {}
+args = sys.argv[1:]
+if "--own" in args:
+    i = args.index("--own")
+    for line in open(args[i + 1]):
+        parts = line.rstrip("\n").split("\t")
+        if len(parts) >= 3:
+            alarm = parts[4] if len(parts) > 4 else ""
+            own_now[parts[0]] = "." if parts[2] == "0" else ("1n" if "no-failing-input-found" in alarm else parts[2])
+    del args[i:i + 2]
+for fn in args:
     for line in open(fn):
         parts = line.rstrip("\n").split("\t")
         if len(parts) < 4:
@@ -21,19 +31,22 @@ checks = ["C%02d" % i for i in range(1, 21)]
 here = os.path.dirname(os.path.abspath(__file__))
 print("| change | breaks | what it does (short) | own check | other checks that also alarm |")
 print("|---|---|---|---|---|")
-for sid in sorted(rows):
+for sid in sorted(set(rows) | set(own_now)):
     if sid == "clean":
         continue
+    rows.setdefault(sid, {})
     own = sid.split("-")[0]
     note = ""
     try:
         md = open(os.path.join(here, "..", "seeded", sid, "notes.md")).read().strip().splitlines()[0]
-        note = md[:150].replace("|", "/")
+        note = md[:110].replace("|", "/")
     except OSError:
         pass
     r = rows[sid]
     others = [c + ("(n)" if r[c] == "1n" else "(broken)" if r[c] == "2" else "") for c in checks if c != own and r.get(c, ".") != "."]
-    o = r.get(own, "?")
+    o = own_now.get(sid, r.get(own, "?"))
+    if not r:
+        others = ["(not in the matrix run)"]
     print("| %s | %s | %s | %s | %s |" % (sid, own, note, {"1": "caught (replay)", "1n": "caught (no-failing-input-found)", ".": "**missed**", "2": "check broke", "?": "not run"}[o], ", ".join(others) or "—"))
 if "clean" in rows:
     bad = [c for c in checks if rows["clean"].get(c, ".") != "."]
